@@ -164,6 +164,44 @@ func genC13(r *Rng, e *Emitter, n int) {
 		e.tally(fmt.Sprintf("drawing-order-kind=%d", kind))
 		emitHull(e, r, stride, flat)
 	}
+	// very large inputs (2^14 distinct points and more, not a round number): a dense cloud, sixteen far
+	// points around it on a circle — eight in the compass directions, eight in between — the
+	// in-between ones last in the input
+	{
+		sizes := []int{16384 + 1 + r.Intn(4000)}
+		if n >= 50000 {
+			sizes = append(sizes, 16385, 16391, 20001, 32771)
+		}
+		for _, size := range sizes {
+			stride := 2 + r.Intn(2)
+			flat := make([]float64, 0, (size+16)*stride)
+			add := func(x, y float64) {
+				flat = append(flat, x, y)
+				for o := 2; o < stride; o++ {
+					flat = append(flat, float64(len(flat)))
+				}
+			}
+			seen := map[[2]int]bool{}
+			for len(seen) < size {
+				x, y := r.Intn(1400)-700, r.Intn(1400)-700
+				if !seen[[2]int{x, y}] {
+					seen[[2]int{x, y}] = true
+					add(float64(x), float64(y))
+				}
+			}
+			R := 100000.0
+			for k := 0; k < 8; k++ {
+				a := float64(k) * math.Pi / 4
+				add(math.Round(R*math.Cos(a)), math.Round(R*math.Sin(a)))
+			}
+			for k := 0; k < 8; k++ {
+				a := (float64(k) + 0.3 + 0.4*r.Float64()) * math.Pi / 4
+				add(math.Round(R*math.Cos(a)), math.Round(R*math.Sin(a)))
+			}
+			e.tally("very-large-input")
+			emitHull(e, r, stride, flat)
+		}
+	}
 	grids := []int{3, 5, 15, 200, 1 << 20}
 	for i := 0; i < n; i++ {
 		stride := 2 + r.Intn(5)
